@@ -331,6 +331,7 @@ public:
     int lastIndexOf(const char *s, int from = -1) const
     {
         int n = qm_strlen(s);
+        if (n == 1) return lastIndexOf(s[0], from);      // Qt forwards one-character needles to the char overload
         int delta = m_len - n;
         if (from < 0) from = delta;
         if (from < 0 || from > m_len) return -1;
@@ -452,7 +453,7 @@ public:
         m_len = n;
     }
     QString(const char *s) : QString() { *this = fromUtf8(s); }
-    QString(const QByteArray &a) : QString() { *this = fromUtf8(a.m_null ? nullptr : a.m_d, a.m_len); }
+    QString(const QByteArray &a) : QString() { *this = fromUtf8(a.m_d, a.m_len); }   // never null: constData() of a null QByteArray is ""
     QString(QLatin1String s) : QString() { *this = fromLatin1(s.m_data, s.m_size); }
     template<int N> static QString fromLiteral(const char16_t (&s)[N])
     {
@@ -511,7 +512,7 @@ public:
     void reserve(int n) { qm_alloc_request(2LL * n); }
     void squeeze() { }
     void truncate(int pos) { if (pos < m_len) resize(pos); }
-    void chop(int n) { if (n >= m_len) resize(0); else if (n > 0) resize(m_len - n); }
+    void chop(int n) { if (n > 0) resize(n >= m_len ? 0 : m_len - n); }   // chop(0) leaves a null string null (observed Qt 5.15.8)
     QString chopped(int n) const { QM_ASSERT(n >= 0 && n <= m_len, "QString::chopped out of range"); return left(m_len - n); }
 
     QString mid(int pos, int n = -1) const
@@ -586,11 +587,11 @@ public:
         for (int j = 0; j < QM_STR_CAP; ++j) if (j < s.m_len && m_d[i + j] != s.m_d[j]) return false;
         return true;
     }
-    bool startsWith(const QString &s) const { return matchAt(0, s); }
+    bool startsWith(const QString &s) const { if (m_null) return s.m_null; return matchAt(0, s); }   // Qt: a null haystack only starts with a null needle
     bool startsWith(QLatin1String s) const { return matchAt(0, QString(s)); }
     bool startsWith(QChar c) const { return m_len > 0 && m_d[0] == c.ucs; }
     bool startsWith(QLatin1Char c) const { return m_len > 0 && m_d[0] == c.unicode(); }
-    bool endsWith(const QString &s) const { return matchAt(m_len - s.m_len, s); }
+    bool endsWith(const QString &s) const { if (m_null) return s.m_null; return matchAt(m_len - s.m_len, s); }
     bool endsWith(QLatin1String s) const { return endsWith(QString(s)); }
     bool endsWith(QChar c) const { return m_len > 0 && m_d[m_len - 1] == c.ucs; }
     bool endsWith(QLatin1Char c) const { return m_len > 0 && m_d[m_len - 1] == c.unicode(); }
@@ -604,8 +605,9 @@ public:
     int indexOf(char c, int from = 0) const { return indexOf(QChar(c), from); }
     int indexOf(const QString &s, int from = 0) const
     {
-        if (from < 0) from = from + m_len < 0 ? 0 : from + m_len;
-        if (s.m_len == 0) return from <= m_len ? from : -1;
+        if (from < 0) from += m_len;
+        if (from < 0 || s.m_len + from > m_len) return -1;     // Qt: a start before the beginning is NOT clamped for string needles
+        if (s.m_len == 0) return from;
         for (int i = 0; i < QM_STR_CAP; ++i) if (i >= from && matchAt(i, s)) return i;
         return -1;
     }
@@ -682,6 +684,7 @@ public:
     QString &replace(QChar b, const QString &a) { return replace(QString(b), a); }
     QString &insert(int pos, const QString &s)
     {
+        if (s.m_len == 0) return *this;
         if (pos < 0) pos += m_len;
         QM_LIMIT(pos >= 0 && pos <= m_len);   // model: padding with spaces beyond the end is not modelled
         QString r = left(pos); r.m_null = false; r.append(s); r.append(mid(pos)); *this = r; return *this;
@@ -793,6 +796,7 @@ public:
         int nums[4]; int prev = -1;
         QM_LIMIT(nargs <= 4);
         for (int k = 0; k < 4; ++k) { nums[k] = -1; if (k < nargs) { nums[k] = lowestMarker(*this, prev); if (nums[k] >= 0) prev = nums[k]; else prev = 1000; } }
+        if (nums[0] < 0) return *this;      // no place marker: Qt warns and returns the string unchanged
         QString r; r.m_null = false; int i = 0;
         for (int step = 0; step < QM_STR_CAP; ++step) {
             if (i >= m_len) break;
